@@ -300,7 +300,7 @@ def run(pid, tier, seed):
     t0 = time.time()
     if comparable({"status": "OK", "fatal": None, "crash": None, "diags": [["Error", "X", 1, 1]]}) == comparable({"status": "OK", "fatal": None, "crash": None, "diags": []}):
         raise core.HarnessError("comparison self-test failed")
-    shards, n, nperm, ncorpus = (8, 10, 3, 15) if tier == "quick" else (16, 150, 40, 50)
+    shards, n, nperm, ncorpus = (16, 25, 4, 20) if tier == "quick" else (16, 150, 40, 50)
     camp = core.Campaign()
     for name, rc in core.regress_cases(pid):
         for k, what in replay(pid, rc["case"]):
